@@ -208,7 +208,7 @@ def run_driver(requests, timeout=1800):
                        stderr=subprocess.PIPE, timeout=timeout)
     if p.returncode != 0:
         raise RuntimeError('driver failed: ' + p.stderr.decode('utf-8', 'replace')[-2000:])
-    lines = [ln for ln in p.stdout.decode('utf-8').splitlines() if ln.strip()]
+    lines = [ln for ln in p.stdout.decode('utf-8').split('\n') if ln.strip()]
     if len(lines) != len(requests):
         raise RuntimeError(f'driver answered {len(lines)} lines for {len(requests)} requests')
     return [json.loads(ln) for ln in lines]
